@@ -9,6 +9,7 @@ package's call sites) through the `World` object.
 from __future__ import annotations
 
 import ast
+import re
 import typing as t
 
 from .cfg import CFG, Node, build
@@ -479,7 +480,7 @@ class FuncIntervals:
     # --------------------------------------------------------------- transfer
     def _kill(self, env: Env, name: str) -> None:
         for k in list(env):
-            if k == name or k.startswith(name + ".") or k.startswith(name + "["):
+            if k == name or k.startswith(name + ".") or k.startswith(name + "[") or ("(" in k and re.search(rf"(?<![\w.]){re.escape(name)}(?!\w)", k)):
                 del env[k]
 
     def _assign(self, env: Env, target: ast.expr, value: t.Optional[ast.expr], iv: t.Optional[IV] = None) -> None:
@@ -613,6 +614,8 @@ class FuncIntervals:
                 return unparse(e)
         if isinstance(e, ast.Call) and unparse(e.func) == "len" and len(e.args) == 1 and isinstance(e.args[0], (ast.Name, ast.Attribute)):
             return unparse(e)
+        if isinstance(e, ast.Call) and unparse(e.func) == "int" and len(e.args) == 1 and not e.keywords and isinstance(e.args[0], ast.Name):
+            return unparse(e)  # int(s) of an unchanged local string is the same number each time it is written
         if isinstance(e, ast.Subscript) and isinstance(e.value, ast.Name) and isinstance(e.slice, ast.Name):
             return unparse(e)
         return None
